@@ -106,6 +106,10 @@ bool BufferedFd::enable()
     if (sp_read_event_ != nullptr)
         sp_read_event_->enable();
 
+    //! data queued by send() before enable() must still be written
+    if (sp_write_event_ != nullptr && send_buff_.readableSize() > 0)
+        sp_write_event_->enable();
+
     state_ = State::kRunning;
 
     return true;
